@@ -156,9 +156,13 @@ def counter_restarts_at_zero_on_every_connection(cls, t, new_channel):
     without route-back), from any previous counter value: once the ConnectRequest succeeded the outgoing
     counter is 0 - wherever in the connect sequence the code resets it."""
     ghost("new_channel").append(new_channel)
+    lock = t._send_lock
     run(t.connect())
     assert t.sequence_number == 0 and t.communication_channel == new_channel
     assert "hb_start" in ghost("T")
+    # one lock for the life of the tunnel object: a sender that is waiting for the reconnect holds it,
+    # and later senders must queue behind it ("only one request awaits acknowledgement at a time")
+    assert t._send_lock is lock
 
 
 UDP = Obj(UDPTunnel, _invalid_sequence_number_reconnect_task=None, _sequence=None, route_back=True, **COMMON)
@@ -271,3 +275,13 @@ ASSUMPTIONS = [
     "asyncio is trusted behind the contract stubs: a cancelled task/future does not continue, asyncio.timeout cancels what it guards, locks are mutually exclusive, queues are FIFO, tasks switch only at awaits; interleavings inside one await are represented by 'the awaited object completes with any admissible value, times out, or the connection closes'",
     "the reconnect task re-establishes the tunnel with counter 0 and a new channel or is cancelled (C25)",
 ]
+
+
+
+@lemma("C24")
+def the_send_lock_is_created_once():
+    """Frame condition for 'one request at a time': in the current source of the tunnel module the send
+    lock attribute is assigned only in _Tunnel.__init__ - no reconnect / disconnect path replaces it."""
+    from pyvc.framecheck import writers_of_attribute
+
+    assert writers_of_attribute("_send_lock", "io/tunnel.py") == ["_Tunnel.__init__"]
